@@ -37,7 +37,7 @@ ASSUMPTIONS = [
     "side effects of comparisons on their operands, and the derived operators <, >, >=, are not part of the statement",
 ]
 
-N_PAIRS = {"quick": 24000, "thorough": 600000}
+N_PAIRS = {"quick": 24000, "thorough": 320000}
 
 
 def plan(tier, seed):
